@@ -1,6 +1,7 @@
 mod cdlevel;
 mod container;
 mod declared;
+mod decodelevel;
 mod detect;
 mod gen;
 mod names;
@@ -64,6 +65,11 @@ fn main() {
             let extra = arg(&args, "--extra").and_then(|s| s.parse().ok()).unwrap_or(100);
             let rounds = arg(&args, "--rounds").and_then(|s| s.parse().ok()).unwrap_or(1);
             sigdump::run(seed, extra, rounds, &out);
+        }
+        "decode" => {
+            let n = arg(&args, "--n").and_then(|s| s.parse().ok()).unwrap_or(600);
+            let r = decodelevel::run(seed, n, &driver, &out);
+            eprintln!("decode: {} evaluations, {} disagreements, {} violations", r["evaluations"], r["disagreements"].as_array().unwrap().len(), r["violations"].as_array().unwrap().len());
         }
         "total" => {
             let n = arg(&args, "--n").and_then(|s| s.parse().ok()).unwrap_or(200);
